@@ -136,7 +136,7 @@ Definition seq_model_ok (p : path) (d : disc) (jrev : bool) (ec : codec) (src : 
          then Nat.eqb (length items) (length expect) && forallb (fun x => existsb (jeqb x) expect) items
               && forallb (fun x => existsb (jeqb x) items) expect
          else jeqb (JArr items) (JArr expect)
-     | JNull => match p, src with PArray, [] => true | _, _ => false end    (* nil backing slice of a never-used array list *)
+     | JNull => match src with [] => true | _ => false end    (* nil backing slice of a never-used array list; a foreign null document *)
      | _ => false
      end
   (* Unmarshal *)
